@@ -17,6 +17,7 @@ func verifZero(v uint16) uint64 {
 }
 
 func VerifC07Sequential() {
+	globalMathRandomGenerator = verifRand{}
 	s0, roc0 := verifU16("seq0"), verifU64("roc0")
 	s := &sequencer{sequenceNumber: s0, rollOverCount: roc0}
 	verifAssert("C07.seq.roc-initial", s.RollOverCount() == roc0)
@@ -42,7 +43,6 @@ func VerifC07Sequential() {
 	verifAssert("C07.fixed.roc", f.RollOverCount() == verifZero(start))
 	verifAssert("C07.fixed.second", f.NextSequenceNumber() == start+1)
 
-	globalMathRandomGenerator = verifRand{}
 	r := NewRandomSequencer()
 	first := r.NextSequenceNumber()
 	verifAssert("C07.random.below-2^15", first < 1<<15)
